@@ -2,6 +2,8 @@
 // Tier K harness module, child of the crate root (no_std + spin-lock feature set: SharedState::new, see state_h.rs).
 use super::*;
 #[allow(unused_imports)]
+use crate::{error, MockFn, MockFnInfo, Unimock};
+#[allow(unused_imports)]
 use crate::alloc::{vec, String, Vec};
 use crate::private::{Continuation, Eval};
 
